@@ -579,7 +579,88 @@ func r36ActionOrder(c *core.Ctx) {
 		okCopy = src != nil && strings.HasPrefix(core.TypeShort(mapElem(srcT)), "gpkg.TargetGeopackage")
 		c.Check(R, "targets-map-copied-per-key/main.Action", lit.Pos(), okCopy, "processing receives targets[id] = gpkgTargets[id] for every id", "the map of targets handed to processing is not a key-for-key copy of the opened targets")
 	}
+	r36PolygonFuncAlwaysSnaps(c, R)
 	c.Floor(R, 7)
+}
+
+// r36PolygonFuncAlwaysSnaps: the per-polygon function main hands to processing.ProcessFeatures returns, on every
+// path, the result of snap.SnapPolygon called with its own polygon and id list and the action's tile matrix set and
+// configuration: no shortcut decides about a polygon without asking the library.
+func r36PolygonFuncAlwaysSnaps(c *core.Ctx, R string) {
+	pb := c.Anchor(R, "main.processBySnapping")
+	if pb == nil || pb.SSA == nil {
+		return
+	}
+	construct := "polygon-function-always-snaps/" + pb.Name
+	calls := findCalls(pb.SSA, core.ModPath+"/processing.ProcessFeatures")
+	if len(calls) != 1 || len(calls[0].Call.Args) != 3 {
+		c.Bad(R, construct, pb.Decl.Pos(), "expected one call processing.ProcessFeatures(source, targets, f)")
+		return
+	}
+	var fn *ssa.Function
+	var mc *ssa.MakeClosure
+	farg := calls[0].Call.Args[2]
+	if ct, ok := farg.(*ssa.ChangeType); ok {
+		farg = ct.X
+	}
+	switch x := farg.(type) {
+	case *ssa.MakeClosure:
+		mc = x
+		fn, _ = x.Fn.(*ssa.Function)
+	case *ssa.Function:
+		fn = x
+	}
+	if fn == nil || len(fn.Params) != 2 {
+		c.Unknown(R, construct, calls[0].Pos(), "the polygon function handed to ProcessFeatures is not a function literal or named function of two parameters")
+		return
+	}
+	// what a free variable of the closure is bound to in processBySnapping
+	boundTo := func(v ssa.Value) ssa.Value {
+		v = resolveValue(v)
+		if ld, ok := v.(*ssa.UnOp); ok {
+			if fv, ok := ld.X.(*ssa.FreeVar); ok && mc != nil {
+				for i, f := range fn.FreeVars {
+					if f == fv && i < len(mc.Bindings) {
+						if a, ok := mc.Bindings[i].(*ssa.Alloc); ok {
+							for _, r := range *a.Referrers() {
+								if st, ok := r.(*ssa.Store); ok && st.Addr == ssa.Value(a) {
+									return st.Val
+								}
+							}
+						}
+						return mc.Bindings[i]
+					}
+				}
+			}
+		}
+		return v
+	}
+	why := ""
+	nret := 0
+	for _, b := range fn.Blocks {
+		for _, in := range b.Instrs {
+			ret, ok := in.(*ssa.Return)
+			if !ok {
+				continue
+			}
+			nret++
+			call, ok := ret.Results[0].(*ssa.Call)
+			if !ok || core.StaticCalleeID(call) != core.ModPath+"/snap.SnapPolygon" {
+				why = "a return at " + c.P.Pos(ret.Pos()) + " does not return the result of snap.SnapPolygon"
+				continue
+			}
+			a := call.Call.Args
+			switch {
+			case resolveValue(a[0]) != ssa.Value(fn.Params[0]):
+				why = "SnapPolygon is not called with the polygon the function was given"
+			case resolveValue(a[2]) != ssa.Value(fn.Params[1]):
+				why = "SnapPolygon is not called with the id list the function was given"
+			case mc != nil && len(pb.SSA.Params) == 4 && (boundTo(a[1]) != ssa.Value(pb.SSA.Params[2]) || boundTo(a[3]) != ssa.Value(pb.SSA.Params[3])):
+				why = "SnapPolygon is not called with processBySnapping's tile matrix set and configuration"
+			}
+		}
+	}
+	c.Check(R, construct, calls[0].Pos(), why == "" && nret >= 1, "every return of the polygon function is snap.SnapPolygon(polygon, tileMatrixSet, ids, config) on its own arguments", "the function handed to the pipeline does not always ask the library: "+why)
 }
 
 // keyForKeyCopy finds `for k, v := range src { dst[k] = v }` (nothing else in the loop) in body and returns src.
